@@ -139,6 +139,11 @@ func applyTamper(r *Rng, c *aCase, v []aServe, i int, kind string) {
 	}
 	s := &v[i]
 	s.Tamper = kind
+	if !strings.HasPrefix(kind, "consistent-") && kind != "sig-flip" && kind != "missing" {
+		// the index keeps recording alternative 0 (a second tamper on the same package must not inherit "served":
+		// the same package installed under two names is a file-conflict matter, not C05's)
+		s.Index = ""
+	}
 	someReg := func(a *aAlt) int { ix := regIdx(*a); return ix[r.Intn(len(ix))] }
 	switch kind {
 	case "ctl-desc":
